@@ -732,9 +732,21 @@ def gen_async(seed: int, tier: str = "quick") -> Dict[str, Any]:
     illegal = None
     if rng.random() < 0.35:
         # a third simulator without async connection, or a missing flag
-        how = rng.choice(["third_sim", "other_agent", "no_flag"])
+        how = rng.choice(["third_sim", "other_agent", "no_flag", "reverse"])
         b = rng.randrange(1, k + 1)
-        if how == "third_sim":
+        if how == "reverse":
+            # the plant itself asks one of its agents: async_requests is enabled for plant -> agent
+            # only, the way back is an ordinary (time-shifted) connection
+            ua_ = "e_out" if sims[b]["type"] == "event-based" else "p_out"
+            # (from an entity of its own, so that its values do not share a key with set_data values)
+            sims[b]["n_ent"] = 3
+            conns.append({"src": b, "se": 2, "dst": 0, "de": rng.randrange(A["n_ent"]), "pairs": [[ua_, "m_in"]],
+                          "shift": 1, "weak": False, "init": {ua_: "initBack"}})
+            A["stub"] = "async"
+            A["beh"]["async_calls"] = []
+            target = f"{sims[b]['sid']}.e0"
+            b = 0
+        elif how == "third_sim":
             C = {"sid": "C", "type": "time-based", "group": 0, "n_ent": 1, "meta_style": 0,
                  "transport": rng.choice(["gated", "stock", "remote"]),
                  "beh": {"bseed": rng.randrange(1 << 30), "step_sizes": [rng.choice([1, 2])]}}
